@@ -952,7 +952,7 @@ def optimize_targets():
     dop = Fn('tuner_do_optimize', 'src/tuner/local.cpp', 'do_optimize', flt='local_search_tuner_t::do_optimize', **common)
     # the surrogate tuner: same protocol, numerics opaque (nondeterministic)
     OPQ = r'unique_ptr<|^nano::r(loss|solver)_t$|factory_t<|quadratic_surrogate|^nano::solver_state_t$|^nano::vector_t$|tensor_vector_storage_t, double, 1>$|^nano::loss_t$|^nano::solver_t$'
-    stypes = [(r'__normal_iterator<|::(const_)?iterator$', 'struct nv_steps_iter'), (OPQ, 'struct nv_opaque'),
+    stypes = [(r'__normal_iterator<|::(const_)?iterator$', 'struct nv_steps_iter'), (OPQ, 'struct nv_c13_opaque'),
               (r'allocator<nano::param_space_t>.*value_type', 'struct nv_spaces')] + types
     scalls = calls + [(r'^all\|', 'nv_opaque_any()'), (r'^operator->\|.*unique_ptr', '(&{0})'), (r'^operator\*\|.*unique_ptr', '{0}'),
                       (r'^ctor\|nano::(tensor2d_t|tensor1d_t|quadratic_surrogate\w*|tensor_t<nano::tensor_vector_storage_t, double, [12]>)\|', '@nondet'),
